@@ -218,8 +218,10 @@ def run(ctx):
     ctx.rule("R2", "registry order resolves overlapping patterns in favour of the more specific module", "a file name matching two formats is loaded by the wrong one")
     finder = prog.func("iodata.api._find_format_modules")
     # registry construction: iterates iter_modules(...) in order, keeps modules having PATTERNS
-    it_calls = [cs for cs in finder.calls if cs.external == "pkgutil.iter_modules"]
-    srt = [cs for cs in finder.calls if cs.external in ("builtins.sorted", "builtins.reversed", "random.shuffle")]
+    # (through helpers of the API module as well; that the listing order is kept is decided by evaluation in R9)
+    builders = [finder] + [h for h in prog.callees_closure([finder]) if h is not finder and h.module is finder.module]
+    it_calls = [cs for g_ in builders for cs in g_.calls if cs.external == "pkgutil.iter_modules"]
+    srt = [cs for g_ in builders for cs in g_.calls if cs.external in ("builtins.sorted", "builtins.reversed", "random.shuffle")]
     if len(it_calls) == 1 and not [c for c in srt if c.external != "builtins.sorted"]:
         ctx.ok("R2", "registry filled in pkgutil.iter_modules order (sorted module names)", finder.where)
     else:
